@@ -21,7 +21,7 @@ THEOREMS = ["Yaw.C08.safe_of_inv", "Yaw.C08.step_inv", "Yaw.C08.crash_safe", "Ya
             "Yaw.C08.inplace_ids_unsafe", "Yaw.C08.stale_samples_unsafe", "Yaw.C08.glue_pinned", "Yaw.C08.oldDisk_inv",
             "Yaw.C08.build_accepted", "Yaw.C08.build_crash_safe", "Yaw.C08.finalize_accepted", "Yaw.C08.finalize_crash_safe",
             "Yaw.C08.toFiles_accepted", "Yaw.C08.toFiles_crash_safe"]
-RULE = ("workloads (catalog creation on a fresh path, overwrite of a complete catalog that holds metadata and trees, "
+RULE = ("workloads (catalog creation on a fresh path with unbounded and with small writer buffers, overwrite of a complete catalog that holds metadata and trees, "
         "metadata computation, tree building on a fresh cache, rebuild with another binning of equal / different bin "
         "count / unbinned <-> binned / forced, CorrFunc -> HDF5 and CorrData / RedshiftData / HistData -> text files on "
         "a fresh path and over older files) executed by the real code under strace; EVERY prefix of the recorded "
@@ -317,6 +317,7 @@ def run(prop, tier, seed, replay):
     cat_workloads = [
         ("create", [], None, dict(create_old, columns=d_new), 0),
         ("overwrite", [create_old, build(1)], 1, create_new, 0),
+        ("create-buffered", [], None, dict(create_old, columns=d_new, buffersize=7), 0),
         ("metadata", [create_old, "drop-meta"], None, dict(kind="open"), 0),
         ("build-fresh", [create_old], None, build(1), 1),
         ("rebuild-same-count", [create_old, build(1)], 1, build(2), 2),
